@@ -181,7 +181,7 @@ func (V *Verifier) VerifyFunc(fn *ssa.Function, con *Contract) (res *FuncResult)
 			r := Const("fr?"+c, SInt)
 			diffs = append(diffs, Forall([]*Term{r}, Implies(And(Le(IntLit(0), r), Lt(r, alloc0)), Eq(Select(now, r), Select(init, r)))))
 		}
-		if len(diffs) > 0 && allowed != False {
+		if len(diffs) > 0 && allowed != False && con.AtomicPanics {
 			nw := "panics.nowrite"
 			if pp.kind != "" {
 				nw = "safe.nowrite." + pp.kind
@@ -246,7 +246,12 @@ func (V *Verifier) VerifyFunc(fn *ssa.Function, con *Contract) (res *FuncResult)
 					continue
 				}
 				q := qq
-				goals = append(goals, Implies(r.reach, Forall([]*Term{q}, Implies(And(Le(IntLit(0), q), Lt(q, alloc0), notIn), Eq(Select(now, q), Select(init, q))))))
+				if now.S.B.K == KArr {
+					k2 := Const("fk?"+c, now.S.B.A)
+					goals = append(goals, Implies(r.reach, Forall([]*Term{q, k2}, Implies(And(Le(IntLit(0), q), Lt(q, alloc0), notIn), Eq(Select(Select(now, q), k2), Select(Select(init, q), k2))))))
+				} else {
+					goals = append(goals, Implies(r.reach, Forall([]*Term{q}, Implies(And(Le(IntLit(0), q), Lt(q, alloc0), notIn), Eq(Select(now, q), Select(init, q))))))
+				}
 			}
 			ex.oblige("frame", c, True, And(goals...), "component "+c+": unchanged on pre-existing objects outside the declared modifies set")
 		}
